@@ -1,7 +1,8 @@
 (* C13 — HTTP server: reload restarts iff config changed; never silently stale.
    This file contains only statements; every proof is `exact <lemma>`. *)
-From Coq Require Import List NArith ZArith Bool Permutation.
-From GS Require Import LTS HttpCfg HttpServer HttpCfgProofs HttpInv HttpInvStep2 HttpProps HttpProgress.
+From Coq Require Import String List NArith ZArith Bool Permutation.
+From GS Require Import LTS HttpCfg HttpServer HttpCfgProofs HttpInv HttpInvStep2 HttpProps HttpProgress HttpMeasure.
+From GS Require Import HttpCtor HttpCfgFieldsPolicy HttpCfgFields.
 Import ListNotations.
 
 (* ---- pure part: Config.Equal (all pairs, no bound on the number of routes or string lengths) ---- *)
@@ -33,6 +34,53 @@ Theorem C13_equal_never_stale : forall (key : list str -> str) new active,
    write_to new = write_to active /\ idle_to new = idle_to active) /\
   (forall x, In x (routes new) <-> In x (routes active)) /\ paths_nodup (routes new) = true.
 Proof. exact config_equal_never_stale. Qed.
+
+(* ---- drift guard: does Equal still look at everything? ----
+   The field lists of the Go structs Config and Route are dumped from the code on every run (reflect,
+   coq/gen/HttpCfgFields.v); every field must be classified in model/HttpCfgFieldsPolicy.v as compared (through a named
+   field of the model's record) or ignored with its reason, and every field of the model's record must be the image of
+   a compared Go field.  A field added to Config without a decision about Equal breaks this theorem. *)
+Theorem C13_equal_fields_covered :
+  fields_covered config_field_policy go_config_fields model_config_fields = true /\
+  fields_covered route_field_policy go_route_fields model_route_fields = true.
+Proof. split; vm_compute; reflexivity. Qed.
+
+(* ... and the model's Equal does compare every field of the model's records (hypothesis: Equal answers true) *)
+Theorem C13_equal_compares_every_model_field : forall (key : list str -> str) a b,
+  config_equal key a b = true ->
+  addr a = addr b /\ drain a = drain b /\ read_to a = read_to b /\ write_to a = write_to b /\ idle_to a = idle_to b /\
+  routes_equal key (routes a) (routes b) = true.
+Proof. exact config_equal_fields. Qed.
+
+(* ---- the two halves composed (audit M9) ----
+   [mux_sound mux_ok]: the ServeMux oracle refuses a pattern list with a repeated pattern (registering the same pattern
+   twice panics) - the only thing assumed about the oracle. *)
+
+(* the configuration of a server that is being served has no duplicate path
+   (hypotheses: mux_sound; no foreign binder; s reachable; state Running; the code's shutdown order or Run not inside
+   its own stopServer) *)
+Theorem C13_served_config_nodup : forall sl validated mux_ok c0 ls s,
+  mux_sound mux_ok -> no_foreign ls ->
+  run (step sl validated mux_ok) (init c0) ls = Some s ->
+  fsm_st s = FRunning -> (sl = true \/ rpc s <> RInStop) ->
+  paths_nodup (routes (cur s)) = true.
+Proof. exact running_paths_nodup. Qed.
+
+(* NO STALE SERVER: in every reachable state, whenever a Reload takes the "unchanged" path on a delivered
+   configuration c (the step LFetch (CbCfg c) leads to KUnchanged - and then, C13_unchanged, nothing is touched), c has
+   the active configuration's address, timeouts and route SET: the server left running serves exactly what c asks
+   for.  (Hypotheses: mux_sound; no foreign binder; s reachable; the Reload caller i is about to receive the
+   callback's result.)  C13_ex_dup_wrong below shows why the active configuration's duplicate-freeness - here PROVED
+   from the protocol, no longer assumed - is needed. *)
+Theorem C13_no_stale_server : forall sl validated mux_ok c0 ls s i c s',
+  mux_sound mux_ok -> no_foreign ls ->
+  run (step sl validated mux_ok) (init c0) ls = Some s ->
+  kpc s = KFetch -> holder s = Some (ByReload i) ->
+  step sl validated mux_ok s (LFetch (CbCfg c)) = Some s' -> kpc s' = KUnchanged ->
+  (addr c = addr (cur s) /\ drain c = drain (cur s) /\ read_to c = read_to (cur s) /\
+   write_to c = write_to (cur s) /\ idle_to c = idle_to (cur s)) /\
+  (forall x, In x (routes c) <-> In x (routes (cur s))) /\ paths_nodup (routes c) = true.
+Proof. exact unchanged_means_equivalent. Qed.
 
 (* ---- protocol part: every schedule of model/HttpServer.v ----
    Schedules are label lists, so "forall ls" is every interleaving of Run, the serve goroutines, any
@@ -83,11 +131,15 @@ Theorem C13_changed : forall sl validated mux_ok c0 ls s,
                  (forall a sid', net_get (net s) a = Some (Own sid') -> sid' = sid).
 Proof. exact running_serves. Qed.
 
-(* Failures are visible: every way a Reload gives up the mutex is either a failure - callback error or
-   nil, r.server nil, a failed Shutdown of the old server, a new server that did not become ready
-   (unbindable address, cancelled context), a configuration NewConfig rejects - and then the state is
-   Error at that very step, or the final Transition(Running).  No hypothesis on the state: this holds
-   with foreign binders too. *)
+(* Failures are visible: every way a Reload gives up the mutex is either a failure - callback error (one that does
+   NOT wrap ErrOldConfig) or nil, r.server nil, a failed Shutdown of the old server, a new server that did not
+   become ready (unbindable address, cancelled context), a configuration NewConfig rejects - and then the state is
+   Error at that very step, or the final Transition(Running) of the unchanged / completed path.
+   Hypotheses: s holds the mutex for Reload caller i, s' has released it, s -l-> s'.  None on reachability or the
+   environment: this holds with foreign binders too.
+   THE CODE'S EXCEPTION, followed by the model (audit L7(a)): a callback error that wraps the exported sentinel
+   ErrOldConfig is taken for "unchanged" (errors.Is in Reload): label LFetch CbErrOld goes to KUnchanged and the
+   Reload ends Running with everything untouched (C13_errold_is_unchanged) - that failure is NOT visible. *)
 Theorem C13_visible : forall sl validated mux_ok s l s' i,
   holder s = Some (ByReload i) -> holder s' = None ->
   step sl validated mux_ok s l = Some s' ->
@@ -95,12 +147,65 @@ Theorem C13_visible : forall sl validated mux_ok s l s' i,
   ((l = LUnchanged \/ l = LFinish) /\ (fsm_st s' = FRunning \/ fsm_st s' = FError)).
 Proof. exact visible_step. Qed.
 
-(* Run()/Stop() still terminate: in EVERY reachable state - no hypothesis on the environment: after callback
-   errors, nil results, failed Shutdowns, foreign binders and unbindable addresses at any position - once
-   Stop or cancel has been requested, either Run has returned or some step other than a new call or an
-   observation is enabled: an internal step, or the return of the callback / of the http.Server.Shutdown in
-   flight.  (No stuck state; liveness under fairness is not expressed.) *)
-Theorem C13_terminates : forall sl validated mux_ok c0 ls s,
+Theorem C13_errold_is_unchanged : forall sl validated mux_ok s i s',
+  kpc s = KFetch -> holder s = Some (ByReload i) ->
+  step sl validated mux_ok s (LFetch CbErrOld) = Some s' ->
+  kpc s' = KUnchanged /\ servers_untouched s s' /\ reload_failing s (LFetch CbErrOld) = false.
+Proof. exact errold_enters. Qed.
+
+(* ---- termination (audit M9): a measure, not only the absence of stuck states ----
+   [mu s] (proofs/HttpMeasure.v) adds up the program counters of Run, of the holder of r.mutex and of every serve
+   goroutine, the pending serve errors, the Reload callers (21 for one that has not locked yet, 1 for one about to
+   return) and the Stop callers.  Labels are classified ([label_class]): ENVIRONMENT = a new Run/Stop/Reload call,
+   context cancel, a foreign process binding or freeing an address; OBSERVATION = the harness looking; everything else
+   is an IMPLEMENTATION step - including the returns of the two external calls a Reload waits for (the configuration
+   callback, http.Server.Shutdown: C14 bounds the latter). *)
+
+(* every implementation step, from every reachable state - NO hypothesis on the environment: after callback errors,
+   nil results, failed Shutdowns, foreign binders, unbindable addresses - strictly decreases the measure *)
+Theorem C13_measure_decreases : forall sl validated mux_ok c0 ls s l s',
+  run (step sl validated mux_ok) (init c0) ls = Some s ->
+  step sl validated mux_ok s l = Some s' -> is_sys l = true -> mu s' < mu s.
+Proof. exact measure_decreases. Qed.
+
+(* an environment step raises it by at most env_cost (= 21, a new Reload caller), an observation leaves it unchanged *)
+Theorem C13_measure_env : forall sl validated mux_ok s l s',
+  step sl validated mux_ok s l = Some s' -> is_sys l = false ->
+  mu s' <= mu s + (if is_env l then env_cost else 0).
+Proof. exact mu_env_step. Qed.
+
+(* TERMINATION: along ANY execution from a reachable state the number of implementation steps is at most the measure
+   of the starting state plus env_cost per environment step - with finitely many calls every execution is finite; a
+   Reload cannot go round in circles and Run()/Stop() cannot be kept busy forever *)
+Theorem C13_terminates : forall sl validated mux_ok c0 ls0 s ls s',
+  run (step sl validated mux_ok) (init c0) ls0 = Some s ->
+  run (step sl validated mux_ok) s ls = Some s' ->
+  nsys ls + mu s' <= mu s + env_cost * nenv ls.
+Proof. exact measure_bounded. Qed.
+
+(* ... and it ends where it should.  Whoever holds r.mutex - a Reload in particular - always has a next
+   implementation step (hypotheses: reachable, not crashed, the mutex is held) ... *)
+Theorem C13_section_progress : forall sl validated mux_ok c0 ls s,
+  run (step sl validated mux_ok) (init c0) ls = Some s -> crashed s = false -> holder s <> None ->
+  exists l, is_sys l = true /\ step sl validated mux_ok s l <> None.
+Proof. exact section_progress. Qed.
+
+(* ... so a state in which no implementation step is enabled (where every maximal execution with finitely many calls
+   ends) has nobody inside or waiting for a critical section, every Reload call returned, Run not started / returned /
+   waiting in its select with neither Stop nor cancel requested, and every Stop caller returned once Run has
+   (hypotheses: reachable, not crashed, no implementation step enabled) *)
+Theorem C13_system_stuck_is_idle : forall sl validated mux_ok c0 ls s,
+  run (step sl validated mux_ok) (init c0) ls = Some s -> crashed s = false ->
+  (forall l, is_sys l = true -> step sl validated mux_ok s l = None) ->
+  holder s = None /\ rl_wait s = [] /\ rl_ret s = [] /\
+  (rpc s = RNew \/ rpc s = RDone \/ (rpc s = RSelect /\ cancelled s || stop_req s = false /\ errs s = [])) /\
+  (stoppers s <> [] -> rpc s <> RDone).
+Proof. exact system_stuck_is_idle. Qed.
+
+(* the older, weaker form (kept): once Stop or cancel has been requested, in EVERY reachable state either Run has
+   returned or some step other than a new call or an observation is enabled (hypotheses: reachable, not crashed, Run
+   has been called, Stop or cancel requested) *)
+Theorem C13_no_stuck_after_stop : forall sl validated mux_ok c0 ls s,
   run (step sl validated mux_ok) (init c0) ls = Some s ->
   crashed s = false -> rpc s <> RNew ->
   (cancelled s || stop_req s = true) ->
@@ -115,7 +220,17 @@ Print Assumptions C13_unchanged_enters.
 Print Assumptions C13_changed.
 Print Assumptions C13_changed_takes_new.
 Print Assumptions C13_visible.
+Print Assumptions C13_errold_is_unchanged.
 Print Assumptions C13_terminates.
+Print Assumptions C13_served_config_nodup.
+Print Assumptions C13_equal_fields_covered.
+Print Assumptions C13_equal_compares_every_model_field.
+Print Assumptions C13_no_stale_server.
+Print Assumptions C13_measure_decreases.
+Print Assumptions C13_measure_env.
+Print Assumptions C13_section_progress.
+Print Assumptions C13_system_stuck_is_idle.
+Print Assumptions C13_no_stuck_after_stop.
 
 (* ---- non-vacuity ---- *)
 Definition ex_r1 : route := {| rname := [97%N]; rpath := [47%N; 120%N] |}.
@@ -149,6 +264,47 @@ Example C13_ex_reload_changed :
 Proof. eexists. split; [vm_compute; reflexivity|]. repeat split. Qed.
 Example C13_ex_no_foreign : no_foreign ex_sched.
 Proof. repeat constructor. Qed.
+
+(* the drift guard does reject: a Config with one more field (the flag of seeded change C19-3) is not covered *)
+Example C13_ex_new_field_breaks :
+  fields_covered config_field_policy (go_config_fields ++ [("routesChecked"%string, "bool"%string)]) model_config_fields = false.
+Proof. vm_compute. reflexivity. Qed.
+Example C13_ex_equal_true : config_equal go_names_key (ex_cfg [ex_r1; ex_r2]) (ex_cfg [ex_r2; ex_r1]) = true.
+Proof. vm_compute. reflexivity. Qed.
+
+(* C13_no_stale_server and C13_served_config_nodup: all hypotheses at once (a sound oracle, a foreign-binder-free schedule
+   reaching a Reload about to receive its callback's result, a permuted - hence "unchanged" - configuration) *)
+Definition ex_pre : list label :=
+  [LRunCall; LRunStart; LRunLock; LBootCreate 0 (ex_cfg [ex_r1; ex_r2]); LBindOk 0; LProbeOk; LRunFinishBoot;
+   LReloadCall 0; LReloadBegin 0].
+Example C13_ex_no_stale_hyps :
+  mux_sound nodup_oracle /\ no_foreign ex_pre /\
+  exists s s', run (step true true nodup_oracle) (init (ex_cfg [ex_r1; ex_r2])) ex_pre = Some s /\
+               kpc s = KFetch /\ holder s = Some (ByReload 0) /\
+               step true true nodup_oracle s (LFetch (CbCfg (ex_cfg [ex_r2; ex_r1]))) = Some s' /\ kpc s' = KUnchanged.
+Proof.
+  split; [exact nodup_oracle_sound|]. split; [repeat constructor|].
+  do 2 eexists. split; [vm_compute; reflexivity|]. split; [reflexivity|]. split; [reflexivity|]. split; reflexivity.
+Qed.
+Example C13_ex_served_nodup_hyps :
+  exists s, run (step true true nodup_oracle) (init (ex_cfg [ex_r1; ex_r2]))
+              [LRunCall; LRunStart; LRunLock; LBootCreate 0 (ex_cfg [ex_r1; ex_r2]); LBindOk 0; LProbeOk; LRunFinishBoot] = Some s /\
+            fsm_st s = FRunning.
+Proof. eexists. split; [vm_compute; reflexivity|reflexivity]. Qed.
+(* a callback error wrapping ErrOldConfig (hypotheses of C13_errold_is_unchanged): the Reload ends Running *)
+Example C13_ex_errold :
+  exists s, run (step true true (fun _ => true)) (init ex_a)
+              [LRunCall; LRunStart; LRunLock; LBootCreate 0 ex_a; LBindOk 0; LProbeOk; LRunFinishBoot;
+               LReloadCall 0; LReloadBegin 0; LFetch CbErrOld; LUnchanged; LReloadRet 0] = Some s /\
+            fsm_st s = FRunning /\ server s = Some 0 /\ length (servers s) = 1.
+Proof. eexists. split; [vm_compute; reflexivity|]. repeat split. Qed.
+(* the measure over a whole run - reload - stop cycle (24 implementation steps, 3 calls): from 43 down to its minimum
+   1 (the constant of a state that has not crashed) *)
+Example C13_ex_measure :
+  mu (init ex_a) = 43 /\
+  exists s, run (step true true (fun _ => true)) (init ex_a) (ex_sched ++ [LStopCall 0; LRunWake; LRunLockStop; LStopCallS 1;
+              LShutdownRet 1 SOk; LRunFinishStop; LRunRet ROk; LStopRet 0; LLasClosed 0; LLasClosed 1]) = Some s /\ mu s = 1.
+Proof. split; [reflexivity|]. eexists. split; [vm_compute; reflexivity|reflexivity]. Qed.
 
 (* a reload that switches every server timeout off (0) and re-pairs names and paths: the server then running was
    created from exactly that configuration, zeros and pairing included *)
